@@ -58,7 +58,8 @@ func (s scenario) String() string {
 }
 
 var (
-	peers   = []string{"10.1.2.3", "10.1.9.9", "192.0.2.10", "127.0.0.1", "2001:db8::1", "2001:db8:1::5", "::1"}
+	// (a link-local IPv6 peer comes with a zone: "[fe80::1%eth0]:41000" is what net/http reports as remote address)
+	peers   = []string{"10.1.2.3", "10.1.9.9", "192.0.2.10", "127.0.0.1", "2001:db8::1", "2001:db8:1::5", "::1", "fe80::1%eth0"}
 	entries = []string{"10.1.2.3", "10.1.0.0/16", "192.0.2.0/24", "127.0.0.1", "2001:db8::1", "2001:db8::/48", "::1", "0.0.0.0/0", "not-an-ip", "10.0.0.0/33", "", "300.1.1.1"}
 )
 
@@ -115,7 +116,7 @@ func genScenario(t *rapid.T) scenario {
 		s.Trusted = &[]string{}
 	default:
 		l := rapid.SliceOfN(rapid.SampledFrom(entries), 1, 3).Draw(t, "trusted")
-		if rapid.IntRange(0, 9).Draw(t, "includePeer") < 4 {
+		if rapid.IntRange(0, 9).Draw(t, "includePeer") < 4 && net.ParseIP(s.Peer) != nil {
 			l = append(l, s.Peer)
 		}
 
@@ -139,7 +140,10 @@ func genScenario(t *rapid.T) scenario {
 		case "X-Forwarded-Host":
 			vals = []string{rapid.SampledFrom([]string{"admin.example.com", "evil.example.com"}).Draw(t, "v")}
 		case "X-Forwarded-Uri":
-			vals = []string{rapid.SampledFrom([]string{"/admin/secret?as=root", "/admin/x%20y?b=2&a=1", "/public/other?q=1"}).Draw(t, "v")}
+			vals = []string{rapid.SampledFrom([]string{"/admin/secret?as=root", "/admin/x%20y?b=2&a=1", "/public/other?q=1",
+				// request targets a client can make a proxy forward: a path starting with two slashes (which reads like an
+				// authority) and the absolute form; only path and query are this header's business
+				"//evil.example.com/admin/secret?as=root", "https://evil.example.com/admin/secret?as=root"}).Draw(t, "v")}
 		case "X-Forwarded-Path":
 			vals = []string{"/admin/secret"}
 		case "X-Forwarded-Method":
@@ -338,8 +342,17 @@ func TestForwardedHeadersOnlyFromTrustedPeers(t *testing.T) {
 				want.Host = v
 				flips = flips || v != s.Host
 			case "X-Forwarded-Uri":
-				u, _ := url.Parse(v)
-				want.Path, want.Query = u.Path, u.RawQuery
+				// the value is a request target: absolute form (scheme and authority are not this header's business) or
+				// origin form, i.e. a path - whatever it starts with - and a query
+				target := v
+				if i := strings.Index(target, "://"); i > 0 && !strings.HasPrefix(target, "/") {
+					rest := target[i+3:]
+					target = rest[strings.IndexByte(rest, '/'):]
+				}
+
+				rawPath, query, _ := strings.Cut(target, "?")
+				want.Path, _ = url.PathUnescape(rawPath)
+				want.Query = query
 				flips = true
 			}
 		}
